@@ -92,9 +92,7 @@ Lemma writec_guard_eq : forall s, wfu s ->
   ueval s 0 0 (pred1 "write@container") = Ok (ub2z (uf_writec_guard s), TBool).
 Proof.
   intros [ab d tg tp gc fs bf rd dcs] (H1 & H2 & H3 & H4). cbn in *.
-  unfold ueval, uf_writec_guard. cbn. unfold arith. cbn. simp64. cbn. simp64. rewrite ?norm_u32.
-  assert (Hm : 0 <= (tp - tg) mod 4294967296 < 4294967296) by (apply Z.mod_pos_bound; reflexivity).
-  simp64.
+  unfold ueval, uf_writec_guard. cbn. unfold arith. cbn. simp64. cbn. simp64.
   destruct ab; cbn; [reflexivity|].
-  destruct ((tp - tg) mod 4294967296 <? bf); reflexivity.
+  destruct (tp - tg <? bf); reflexivity.
 Qed.
